@@ -65,6 +65,40 @@ DENSITY = np.array([-1.0, 0.0, 1e-3, 1.0, 19.3])
 
 FORMULAS_OK = ["H2O", "Ca5(PO4)3F", "(H2O)2", "C6H12O6", "SiO2", "Pb", "U", "H0.5O", "Fe2O3", "Ca(OH)2", "NaCl", "Am", "Es"]
 FORMULAS_BAD = ["", "Uu", "H2O)", "(H2O", "h2o", "H-2O", "0", "Rf", "Sg(CH3)4", "2H", "H2O ", "Cf(", "()", "H()", "H2..5", "\xff"]
+# two independent causes of rejection in one string (a second error must not be stored over the first), brackets balanced in number but not in order
+FORMULAS_BAD += ["RfDb", "H)(O"]
+PARSER_FAULTS = ["Rf", "Db", "Sg", "Bh", "Uu", "Xx", "(", ")", "0", "1.2.3", "h", "$", "()", "(H"]
+
+
+def parser_fault_strings():
+    return sorted(set(tpl % (a, b) for a in PARSER_FAULTS for b in PARSER_FAULTS for tpl in ("%s%s", "%sO%s", "H2%s%s", "(%s)2%s", "%s2(%sO3)2")))
+
+
+def subscript_edge_formulas():
+    """decimal subscripts across the magnitudes (1e-25 .. 1e22, long mantissas, leading zeros) on an element, a group and a nested group:
+    a threshold such as 'smaller than 1e-6 counts as zero' in ONE implementation of the parser needs a literal on the other side of it"""
+    subs = []
+    for k in range(1, 26):
+        subs += ["0." + "0" * (k - 1) + "1", "0." + "0" * (k - 1) + "5", "0." + "0" * (k - 1) + "999"]
+    for k in range(1, 23):
+        subs += ["1" + "0" * k, "9" * k]
+    subs += ["1.0000000000000002", "0.30000000000000004", "0.1234567890123456789012345", "1.000000", "01", "007", "0.10", "2.50"]
+    out = []
+    for s_ in subs:
+        out += ["H%sO" % s_, "Ca(OH)%s" % s_, "((H%s)2O)3" % s_, "Si0.9999995B%s" % s_]
+    return sorted(set(out))
+
+
+def short_strings(L):
+    """every string of length 1..L over two six-symbol alphabets whose letters collide into one- and two-letter symbols"""
+    import itertools
+    out = []
+    for alpha in (["H", "e", "(", ")", "2", "."], ["C", "o", "(", ")", "0", "1"]):
+        for n in range(1, L + 1):
+            out += ["".join(t) for t in itertools.product(alpha, repeat=n)]
+    return out
+
+
 NIST_SAMPLE = ["Water, Liquid", "Air, Dry (near sea level)", "Kapton Polyimide Film", "Bone, Cortical (ICRP)", "Lead Glass", "water", "Water, liquid"]
 
 
